@@ -93,6 +93,18 @@ def check(case):
     keys, evals = [], 0
     default_text = K.dumps(kdoc)
     shared_exporter = kp.Exporter()  # one Exporter object reused for every option set of this document
+    # a caller-owned default ExportOptions object used first for a one-spine document and then for this one: it must
+    # not be rewritten by an export, and it must keep meaning "defaults"
+    opts0 = kp.ExportOptions()
+    before = repr(sorted((k, sorted(v, key=repr) if isinstance(v, (set, list)) else v) for k, v in vars(opts0).items()))
+    small, _ = kp.loads('**kern\n*clefG2\n4c\n*-\n')
+    kp.Exporter().export_string(small, opts0)
+    via_opts = kp.Exporter().export_string(kdoc, opts0)
+    after = repr(sorted((k, sorted(v, key=repr) if isinstance(v, (set, list)) else v) for k, v in vars(opts0).items()))
+    if via_opts != default_text:
+        raise Bad('reused-options', f'a default ExportOptions object used for another document before gives a different export than dumps(doc)\n--- dumps\n{default_text}--- reused options\n{via_opts}')
+    if before != after:
+        raise Bad('options-mutated', f'export_string rewrote the caller\'s ExportOptions: {before} -> {after}')
     for o in case['opts']:
         enc = o['enc'] or 'kern'
         sel = cats.selected(o['inc'], o['exc'])
